@@ -1,4 +1,4 @@
 import pdo_check
 def run(ctx):
-    pdo_check.run(ctx, ["C16"])
+    pdo_check.run(ctx, ["C16", "C16B"])
 VARIANTS = {"default": (), "r4t2": ("CO_RPDO_N=4", "CO_TPDO_N=2"), "r2t4": ("CO_RPDO_N=2", "CO_TPDO_N=4")}
